@@ -235,6 +235,9 @@ func (h *hTr) expr(e ast.Expr) (string, string) {
 		if v.Kind == token.INT {
 			return v.Value, "lit"
 		}
+		if v.Kind == token.STRING && v.Value == `""` {
+			return "[]", "str"
+		}
 	case *ast.Ident:
 		if v.Name == "true" || v.Name == "false" {
 			return v.Name, "bool"
@@ -375,6 +378,40 @@ func (h *hTr) expr(e ast.Expr) (string, string) {
 			if ty == "u32" && fn == "uint64" || ty == "u"+fn[4:] {
 				return x, "u" + fn[4:]
 			}
+		case fn == "string" && len(v.Args) == 1:
+			x, ty := h.expr(v.Args[0])
+			if ty == "str" || ty == "bytes" {
+				return x, "str"
+			}
+		case (fn == "AttesterKey" || fn == "types.AttesterKey") && len(v.Args) == 1:
+			x, ty := h.expr(v.Args[0])
+			if ty == "bytes" || ty == "str" {
+				return "(attester_key " + x + ")", "bytes"
+			}
+		case (fn == "PerMessageBurnLimitKey" || fn == "types.PerMessageBurnLimitKey") && len(v.Args) == 1:
+			x, ty := h.expr(v.Args[0])
+			if ty == "str" {
+				return "(limit_key " + x + ")", "bytes"
+			}
+		case (fn == "TokenPairKey" || fn == "types.TokenPairKey") && len(v.Args) == 2:
+			d, td := h.expr(v.Args[0])
+			t, tt := h.expr(v.Args[1])
+			if td == "u32" && tt == "bytes" {
+				return "(pair_key " + d + " " + t + ")", "bytes"
+			}
+		case (fn == "UsedNonceKey" || fn == "types.UsedNonceKey") && len(v.Args) == 2:
+			n, tn := h.expr(v.Args[0])
+			d, td := h.expr(v.Args[1])
+			if tn == "u64" && td == "u32" {
+				return "(nonce_key " + d + " " + n + ")", "bytes"
+			}
+		case (fn == "RemoteTokenMessengerKey" || fn == "types.RemoteTokenMessengerKey") && len(v.Args) == 1:
+			d, td := h.expr(v.Args[0])
+			if td == "u32" {
+				return "(messenger_key " + d + ")", "bytes"
+			}
+		case fn == "make" && len(v.Args) == 1 && h.t.show(v.Args[0]) == "map[string]struct{}":
+			return "[]", "set"
 		case fn == "[]byte" && len(v.Args) == 1:
 			x, ty := h.expr(v.Args[0])
 			if ty == "str" || ty == "bytes" {
@@ -1106,6 +1143,33 @@ func (h *hTr) stmt(s ast.Stmt) {
 				h.bad("%s", h.t.show(s))
 			}
 		}
+		// m[k] = struct{}{} on a set
+		if len(v.Lhs) == 1 && v.Tok == token.ASSIGN {
+			if ie, ok := v.Lhs[0].(*ast.IndexExpr); ok {
+				if id, ok := ie.X.(*ast.Ident); ok && h.env[id.Name] == "set" && h.t.show(rhs) == "struct{}{}" {
+					k, ty := h.expr(ie.Index)
+					if ty == "str" || ty == "bytes" {
+						h.bindLocal(id.Name, "("+k+" :: v_"+id.Name+")", "set")
+						return
+					}
+				}
+				h.bad("%s", h.t.show(s))
+			}
+		}
+		// _, ok := m[k] on a set
+		if len(v.Lhs) == 2 && v.Tok == token.DEFINE {
+			if ie, ok := rhs.(*ast.IndexExpr); ok {
+				if id, ok := ie.X.(*ast.Ident); ok && h.env[id.Name] == "set" && h.t.show(v.Lhs[0]) == "_" {
+					k, ty := h.expr(ie.Index)
+					okv, isId := v.Lhs[1].(*ast.Ident)
+					if isId && (ty == "str" || ty == "bytes") {
+						h.bindLocalD(okv.Name, "(existsb (beqb "+k+") v_"+id.Name+")", "bool", true)
+						return
+					}
+				}
+				h.bad("%s", h.t.show(s))
+			}
+		}
 		names := []string{}
 		for _, l := range v.Lhs {
 			id, ok := l.(*ast.Ident)
@@ -1381,8 +1445,16 @@ func (h *hTr) stmt(s ast.Stmt) {
 		} else {
 			delete(h.env, elem.Name)
 		}
-		if endsRet || len(re) != 0 {
-			h.bad("range body with a return or an assignment to an outer variable")
+		if endsRet || len(re) > 1 {
+			h.bad("range body with a return or assignments to several outer variables")
+		}
+		if len(re) == 1 {
+			var acc string
+			for k := range re {
+				acc = k
+			}
+			h.lines = append(h.lines, fmt.Sprintf("v_%s <- go_loop (fun v_%s v_%s => %s ret v_%s) %s v_%s ;;", acc, elem.Name, acc, strings.Join(body, " "), acc, x, acc))
+			return
 		}
 		h.lines = append(h.lines, fmt.Sprintf("go_for_each (fun v_%s => %s ret tt) %s ;;;", elem.Name, strings.Join(body, " "), x))
 	case *ast.ReturnStmt:
@@ -1711,7 +1783,7 @@ func translateGenesis(repo string, ints map[string]int64, scalarVars map[string]
 	}
 	defer func() {
 		if r := recover(); r != nil {
-			for _, n := range []string{"InitGenesis", "ExportGenesis"} {
+			for _, n := range []string{"InitGenesis", "ExportGenesis", "Validate"} {
 				out["GoG_"+n+".v"] = notTranslated(n, fmt.Sprintf("the translator failed: %v", r))
 			}
 		}
@@ -1735,11 +1807,20 @@ func translateGenesis(repo string, ints map[string]int64, scalarVars map[string]
 			}
 		}
 	}
-	imports := "From Coq Require Import Bool Arith.\nFrom Cctp Require Import Lib.Bytes Lib.SMap Lib.Text Lib.Hex Model.Codec Model.State Model.Attest Model.Ledger Model.Handlers Model.Genesis Proofs.MonadFacts Gen.GoSem Gen.GoSemGenesis.\nClose Scope string_scope.\n\n"
-	for _, n := range []string{"InitGenesis", "ExportGenesis"} {
+	imports := "From Coq Require Import Bool Arith.\nFrom Cctp Require Import Lib.Bytes Lib.SMap Lib.Text Lib.Hex Lib.Bech32 Model.Codec Model.State Model.Attest Model.Ledger Model.Handlers Model.Genesis Proofs.MonadFacts Gen.GoSem Gen.GoSemGenesis.\nClose Scope string_scope.\n\n"
+	// GenesisState.Validate of x/cctp/types/genesis.go
+	if af2, err := parser.ParseFile(fset, filepath.Join(repo, "x/cctp/types/genesis.go"), nil, 0); err == nil {
+		for _, d := range af2.Decls {
+			if fd, ok := d.(*ast.FuncDecl); ok && fd.Recv != nil && fd.Body != nil && fd.Name.Name == "Validate" && len(fd.Recv.List) == 1 &&
+				strings.TrimPrefix(ct.show(fd.Recv.List[0].Type), "*") == "GenesisState" {
+				found["Validate"] = fd
+			}
+		}
+	}
+	for _, n := range []string{"InitGenesis", "ExportGenesis", "Validate"} {
 		fd := found[n]
 		if fd == nil {
-			out["GoG_"+n+".v"] = notTranslated(n, "no function of this name in x/cctp/genesis.go")
+			out["GoG_"+n+".v"] = notTranslated(n, "no function of this name")
 			continue
 		}
 		h := &hTr{t: ct, structs: structs, scalars: scalars, funcs: map[string]*funcInfo{}, env: map[string]string{}, lits: map[string]map[string]string{},
@@ -1756,10 +1837,16 @@ func translateGenesis(repo string, ints map[string]int64, scalarVars map[string]
 				}
 			}()
 			ps := fd.Type.Params.List
-			if len(ps) < 2 || len(ps[1].Names) != 1 || ct.show(ps[1].Type) != "*keeper.Keeper" {
+			if n == "Validate" {
+				if len(ps) != 0 || len(fd.Recv.List[0].Names) != 1 || fd.Type.Results == nil || len(fd.Type.Results.List) != 1 || ct.show(fd.Type.Results.List[0].Type) != "error" {
+					h.bad("signature")
+				}
+				h.kind, h.msgVar, h.msgTy, h.recvK = "err", fd.Recv.List[0].Names[0].Name, "GenesisState", "\x00none"
+			} else if len(ps) < 2 || len(ps[1].Names) != 1 || ct.show(ps[1].Type) != "*keeper.Keeper" {
 				h.bad("signature")
+			} else {
+				h.recvK = ps[1].Names[0].Name
 			}
-			h.recvK = ps[1].Names[0].Name
 			switch n {
 			case "InitGenesis":
 				if len(ps) != 3 || len(ps[2].Names) != 1 || ct.show(ps[2].Type) != "types.GenesisState" || fd.Type.Results != nil {
@@ -1786,7 +1873,12 @@ func translateGenesis(repo string, ints map[string]int64, scalarVars map[string]
 		}
 		var sb strings.Builder
 		sb.WriteString(imports)
-		if n == "InitGenesis" {
+		if n == "Validate" {
+			fmt.Fprintf(&sb, "Section Go.\n  Variable e : env.\n  Definition go_Validate (a_%s : genesis) : M unit :=\n    %s.\nEnd Go.\n\n", h.msgVar, strings.Join(h.lines, "\n    "))
+			sb.WriteString("(* the translated Validate accepts exactly the genesis states the model's validate accepts, and touches nothing *)\n")
+			sb.WriteString("Definition go_Validate_ok : Prop := forall e g h, go_Validate e g h = (if validate e g then ROk tt else RErr, h).\n")
+			sb.WriteString("Lemma go_Validate_ok_proof : go_Validate_ok.\nProof. timeout 600 (unfold go_Validate_ok, go_Validate; go_genesis_validate). Qed.\n")
+		} else if n == "InitGenesis" {
 			fmt.Fprintf(&sb, "Definition go_InitGenesis (a_%s : genesis) : M unit :=\n  %s.\n\n", h.msgVar, strings.Join(h.lines, "\n  "))
 			sb.WriteString("(* run on an empty store, the translated InitGenesis produces exactly the model's store, and panics exactly when the model does *)\n")
 			fmt.Fprintf(&sb, "Definition go_InitGenesis_ok : Prop := forall g h, h_st h = empty_store ->\n  match init_genesis g with\n  | Some s => go_InitGenesis g h = (ROk tt, go_with_st h s)\n  | None => fst (go_InitGenesis g h) = RPanic\n  end.\n")
